@@ -15,6 +15,21 @@ CLAIMED = {
  "C04": dict(engine="E1+E3", technique="exhaustive exploration of the SAT-oracle choice tree; certificates judged semantically",
    text="Certificate presence and validity (member of the reference family, contains / avoids the queried argument, caller's own argument objects, no duplicates) on every leaf of the oracle choice tree for all frameworks with <=3 arguments incl. sparse-id and multi-component presentations, plus S and (thorough) U(4).",
    note="same trusted base as C01", ref="4 C04"),
+ "C07": dict(engine="E1+E3", technique="exhaustive enumeration of argument lists x oracle choice tree over all small frameworks",
+   text="All argument lists of length 1..3 (with repetitions, every order; 1..2 in the quick tier except on <=2-argument frameworks) over all frameworks with <=3 arguments and all two-component unions U(<=2)+U(<=2), through every static solver implementing the acceptance traits, both variants, under the oracle choice tree (complete in thorough, D<=1 in quick) and CaDiCaL; statuses judged as disjunctions over the reference extensions.",
+   note="same trusted base as C01", ref="4 C07"),
+ "C08": dict(engine="E2+E1", technique="bounded exhaustive exploration of update/query histories (stateless DFS) x oracle choice tree",
+   text="Every history of valid updates and supported queries up to depth 7 over 2 labels / depth 6 over 3 labels (thorough: 9 / 7), for the 15 solver configurations (3 buffered solvers, 2 attack-assumption solvers x 5 reservation factors, 2 recompute wrappers), plus all continuations from every <=3-argument framework built with compact and with sparse ids; each step compared with the reference semantics of the framework at that moment; the shared SAT solver is CaDiCaL and the controlled oracle (D<=2).",
+   note="trusted: reference store (bit sets) and reference semantics; certificate ids checked against an insertion-rank ledger; histories longer than the bound, >3 labels, other factors not covered", ref="4 C08, 2.2"),
+ "C09": dict(engine="E2+E1", technique="bounded exhaustive exploration of histories with up to 2 redundant/invalid updates at every position",
+   text="The C08 alphabet extended with redundant and invalid updates (one never-declared label) at every position, up to 2 per history, depth <=5/6 (thorough 6/8), all 15 solver configurations, from the empty solver and from every <=2-argument framework; redundant must be a no-op, invalid must return Err from the update call itself, later steps must be those of the history without the bad operation. A history is cut at its first deviation; 20 call-site classes of one recorded defect (F7) are listed in known_findings.txt.",
+   note="same as C08; the buffered solvers are not explored beyond their first invalid update (known finding F7 cuts the history there)", ref="4 C09, 5.3"),
+ "C17": dict(engine="E1 fault injection", technique="exhaustive fault enumeration: Unknown injected at every node of the oracle choice tree",
+   text="For every framework with <=3 arguments (and S on the default path; thorough: U(4) default path), every problem, encoder, argument and certificate flag, and every node of the complete oracle choice tree, one extra execution in which that SAT call answers Unknown: the query must unwind and produce no status, certificate or extension. Same for the dynamic solvers over all depth-5 histories ending in a query. Vacuity guard: all unwrap_model call sites of the library are shown reached (backtraces). Process-level failure kinds through the CLI are part of the same check.",
+   note="a panic is the accepted way to abort; fault budget 1 per execution", ref="4 C17"),
+ "C18": dict(engine="E1 counting oracle", technique="worst case over the complete oracle choice tree against the per-component bound",
+   text="For every connected framework with <=3 arguments (complete choice tree), all U(<=2)+U(<=2) unions (sum of component bounds), connected members of S (D<=1/2) and thorough connected U(4) (D<=1): the maximum number of SAT calls over ALL oracle behaviours is compared with the property's bound computed from the reference model; a counting oracle aborts at bound+2 so divergence is a finite counter-example; no candidate handed twice (PR) / more than twice (ID) to one solver object.",
+   note="bound formulas are the property's own; disconnected frameworks only checked against the implied sum", ref="4 C18"),
 }
 
 NOT_YET = {
